@@ -337,11 +337,23 @@ class Prop:
                     if ind != outd:
                         break
                 ranks = [1] * (d - 1); why = "non-square cores"
-            else:              # both
+            elif r < 0.9:      # both
                 d = rng.randint(2, 3); ind = [rng.randint(1, 3) for _ in range(d)]; outd = [x + 1 for x in ind]
                 ranks = [2] * (d - 1); why = "rank>1 and non-square"
-            cores = rand_ttm_cores(rng, ind, outd, ranks=ranks, lo=1, hi=3) if B == 0 else \
-                [rand_ttm_cores(rng, ind, outd, ranks=ranks, lo=1, hi=3) for _ in range(B)]
+            else:              # inner ranks 1, square cores, but an open outer bond: a sum of Kronecker products
+                d = rng.randint(1, 3); ns = [rng.randint(1, 3) for _ in range(d)]
+                ind, outd = ns, list(ns); ranks = [1] * (d - 1); why = "open outer bond"
+            def gen_cores():
+                cs = rand_ttm_cores(rng, ind, outd, ranks=ranks, lo=1, hi=3)
+                if why == "open outer bond":
+                    extra = rand_ttm_cores(rng, ind, outd, ranks=ranks, lo=1, hi=3)
+                    if open_first:
+                        cs[0] = cs[0] + extra[0]                                  # left bond of the first core: 2
+                    else:
+                        cs[-1] = [[[ra + rb for ra, rb in zip(ia, ib)] for ia, ib in zip(cs[-1][0], extra[-1][0])]]   # right bond: 2
+                return cs
+            open_first = rng.random() < 0.5
+            cores = gen_cores() if B == 0 else [gen_cores() for _ in range(B)]
             mk("kron_invalid", {"kop": kop, "batch": B, "why": why, "valid": False}, kop=kop, cores=cores, ind=ind, outd=outd, batch=B)
         return cases
 
